@@ -350,6 +350,14 @@ def run_variant(prog, R, variant, bindings, specs):
 
     out = {"fail": None, "model": None, "args": None, "caller_args": None, "skipped": None}
     vr = random.Random(variant["seed"])
+    # between two builds the caller goes on using its containers: every list it once handed to a constructor is
+    # emptied / extended again (the dataflow stays what was constructed)
+    for lst in getattr(R, "keep", []):
+        if isinstance(lst, list):
+            if vr.random() < 0.5:
+                lst.clear()
+            elif R.vars:
+                lst.append(next(iter(R.vars.values())))
     margs = L.main_args(prog)
     used = L.used_args(prog)
     order = list(R.inputs)  # the caller's dict order of the default build: in<id>
@@ -564,6 +572,12 @@ def run(ck: core.Check):
         entry = c01_entry.generate()
     except Exception as e:  # noqa: BLE001
         ck.broken("generated", "C01 entry-option inventory (translator/c01_entry.py)", f"{type(e).__name__}: {e}")
+    try:  # tie G: every public constructor parameter that takes a sequence of Vars
+        from translator import c01_variadic
+
+        ck.cov["sequence_parameters_inventory"] = c01_variadic.generate()
+    except Exception as e:  # noqa: BLE001
+        ck.broken("generated", "C01 sequence-parameter inventory (translator/c01_variadic.py)", f"{type(e).__name__}: {e}")
     ck.lean(["SpoxModel.Props.C01"], audit="SpoxModel.Audit.C01")
     if entry is not None:
         # the Lean lists say what the harness varies: keep them honest against the harness's own tables
@@ -588,7 +602,7 @@ def run(ck: core.Check):
         ck.leanchecker(["SpoxModel.Props.C01"])
 
     rng = ck.rng
-    n_random = ck.pick(460, 6000)
+    n_random = ck.pick(360, 6000)
     n_styles = ck.pick(3, 4)
     n_bind = 3
     skel_uses = ck.pick(3, 6)
@@ -612,6 +626,8 @@ def run(ck: core.Check):
         programs.append((prog, "skeleton5:" + tag))
     for prog, tag in L.no_input_programs():  # outputs that read no input at all: the drop build has no inputs
         programs.append((prog, "skeleton5:no-input:" + tag))
+    for prog, tag in L.variadic_programs():  # every sequence-taking constructor x operand count x placement
+        programs.append((prog, "skeleton6:variadic:" + tag))
     n_skel = len(programs)
     for _ in range(ck.pick(60, 600)):  # scalar-attribute operators with unusual values, twins constructed first
         programs.append((L.gen_attr_program(random.Random(rng.getrandbits(48))), "attr"))
@@ -667,6 +683,9 @@ def run(ck: core.Check):
     lean_used: list[list[int]] = []
     read_profile = collections.Counter()
     hist_dims = collections.Counter()
+    hist_mut = collections.Counter()
+    ev_reqs: list = []
+    ev_obs: list = []
     variant_hist = collections.Counter()
     for pi, (prog, origin) in enumerate(programs):
         bad = L.check_wellformed(prog) + L.typecheck(prog)
@@ -694,6 +713,8 @@ def run(ck: core.Check):
             styles = ["lazy", "eager"] if not ck.thorough else skel_styles
         else:
             styles = skel_styles if origin.startswith("skeleton") else rng.sample(L.STYLES, n_styles)
+            if not ck.thorough and (origin.startswith("skeleton2") or origin.startswith("skeleton3")):
+                styles = rng.sample(skel_styles, 2)  # (quick budget: two seeded of the three styles)
         skey = struct_key(prog)
         for style in styles:
             rseed = rng.getrandbits(32)
@@ -720,7 +741,7 @@ def run(ck: core.Check):
                 notes[nt.split(":")[0]] += 1
             nontrivial = d >= 1 or any(len(n["ty"]) > 1 or None in n["ins"] for n in prog["nodes"])
             ck.count((skey, style) if nontrivial else None)
-            if not res["fail"] and style == styles[0] and (pi % ck.pick(6, 4) == 0 or origin == "attr") and not origin.startswith("deep"):
+            if not res["fail"] and style == styles[0] and (pi % ck.pick(8, 4) == 0 or origin == "attr") and not origin.startswith("deep"):
                 try:
                     hf = run_history(prog, style, rseed, bindings)
                 except Exception as e:  # noqa: BLE001
@@ -785,6 +806,8 @@ def run(ck: core.Check):
                     variants = [variants[0]] + rng.sample(variants[1:], ck.pick(1, 2))
                 elif pi % 4:
                     variants = variants[:1]
+                    if not ck.thorough and pi % 2 and origin.split(":")[0] in ("skeleton", "skeleton2", "skeleton3", "skeleton4"):
+                        variants = []  # (quick budget: these families read every input at depth <= 1; every 2nd program)
                 for variant in variants:
                     try:
                         vres = run_variant(prog, R, variant, bindings, specs)
@@ -849,7 +872,20 @@ def run(ck: core.Check):
             em_depth[es["depth"]] += 1
             stats["emitted_nodes"] += es["nodes"]
             stats["emitted_graphs"] += es["graphs"]
+            if R is not None and getattr(R, "calls", None) and style == styles[0]:
+                # tie H (Model/Containers.lean): the operands the constructed nodes hold NOW vs the model's snapshots
+                try:
+                    ev_obs.append((L.observed_sequence_operands(R), (pi, style, rseed, origin)))
+                    ev_reqs.append({"events": R.events})
+                except Exception as e:  # noqa: BLE001 - observation facet
+                    stats["container_observation_errors"] += 1
+                    if stats["container_observation_errors"] <= 2:
+                        ck.broken("correspondence", "C01 could not observe the sequence operands of constructed nodes",
+                                  f"{origin}: {type(e).__name__}: {e}")
             if R is not None:
+                stats["caller_owned_containers"] += getattr(R, "owned", 0)
+                for mk_, mv_ in getattr(R, "mutations", {}).items():
+                    hist_mut[mk_] += mv_
                 for k, dd in R.created_in.items():
                     ed = es["depth_of"].get(k)
                     if ed is not None and prog["nodes"][k]["op"] != "arg":
@@ -929,6 +965,50 @@ def run(ck: core.Check):
                               f"program #{meta[0]} style={meta[1]} rseed={meta[2]}")
         prev = (o, meta)
 
+    # --- caller-owned containers: the model's snapshots vs what the constructed nodes hold after the mutations
+    try:
+        ev_outs = ck.driver().ask_many("C01", ev_reqs) if ev_reqs else []
+    except Exception as e:  # noqa: BLE001
+        ck.broken("correspondence", "C01 driver (container events)", str(e)[:300])
+        ev_outs = []
+    for o, (obs, meta) in zip(ev_outs, ev_obs):
+        snaps = o.get("snapshots")
+        tagc = None
+        if snaps is None:
+            tagc = "driver-error"
+        elif snaps != [ids for _, ids in obs]:
+            tagc = "constructed-operands-differ-from-the-contents-at-call-time"
+        elif any(tn != "tuple" for tn, _ in obs):
+            tagc = "sequence-operands-held-in-a-mutable-container"
+        if tagc:
+            mism[tagc] += 1
+            if mism[tagc] <= 2:
+                ck.broken("correspondence", f"C01 containers: {tagc}", f"program #{meta[0]} ({meta[3]}) style={meta[1]} rseed={meta[2]}: model {snaps} observed {obs}"[:600])
+        else:
+            stats["container_traces_compared"] += 1
+
+    # --- round 7: sequence-taking constructors outside the abstract vocabulary, caller's list mutated afterwards
+    probe_hist = collections.Counter()
+    try:
+        from harness import lib_containers as LC
+
+        for pd in LC.all_probes(random.Random(rng.getrandbits(48))):
+            try:
+                pr = LC.run_probe(pd["probe"], pd["kind"], pd["opset"], pd["seed"])
+            except Exception as e:  # noqa: BLE001
+                ck.broken("correspondence", "C01 container probe could not be processed", f"{pd}: {type(e).__name__}: {e}")
+                continue
+            stats["builds"] += 1
+            if pr is None:
+                probe_hist[pd["probe"]] += 1
+            elif pr[0] == "skip":
+                notes["container-probe-unavailable"] += 1
+            else:
+                ck.failure(pr[0], pr[1] + " [container probe]", {"container_probe": pd})
+                stats["oracle_failures"] += 1
+    except Exception as e:  # noqa: BLE001
+        ck.broken("correspondence", "C01 container probes", f"{type(e).__name__}: {e}")
+
     # --- the listed finding, replayed on every run
     try:
         kf = run_case(LOOP_SCALAR_COND, "lazy", 1, [L.random_binding(LOOP_SCALAR_COND, random.Random(5))])
@@ -978,6 +1058,10 @@ def run(ck: core.Check):
                 "styles": dict(hist_style),
                 "opset_versions": dict(hist_opset),
                 "model_inputs_declared": dict(hist_dims),
+                "caller_owned_lists_handed_to_constructors": stats["caller_owned_containers"],
+                "caller_mutations_after_construction": dict(hist_mut),
+                "container_probes_passed": dict(probe_hist),
+                "container_event_traces_compared_with_model": stats["container_traces_compared"],
                 "emitted_nodes": stats["emitted_nodes"],
                 "emitted_graphs": stats["emitted_graphs"],
                 "unrequested_constructions": stats["unrequested_constructions"],
@@ -1011,6 +1095,16 @@ def run(ck: core.Check):
 
 def replay(ck: core.Check, doc) -> bool:
     case = doc["case"]
+    if case.get("container_probe"):
+        from harness import lib_containers as LC
+
+        pd = case["container_probe"]
+        pr = LC.run_probe(pd["probe"], pd["kind"], pd["opset"], pd["seed"])
+        if pr is not None and pr[0] != "skip":
+            print(f"{pr[0]}: {pr[1]}")
+            return True
+        print(f"container probe {pd}: {'not available in this tree' if pr else 'computes the dataflow as constructed'}")
+        return False
     prog = case["prog"]
     bindings = [L.binding_from_json(prog, b) for b in case["bindings"]]
     if case.get("variant"):
